@@ -310,14 +310,26 @@ std::vector<std::string> scriptsUpTo(int len)
     return out;
 }
 
+// seconds left of the tier's global deadline (the driver passes the total; V::S().start is the harness start)
+double remainingS(const V::Ctx &ctx)
+{
+    if (ctx.deadlineS <= 0) return 0;                      // no deadline
+    const double r = ctx.deadlineS - difftime(time(nullptr), V::S().start);
+    return r < 2 ? -1 : r;
+}
+
 void body(V::Ctx &ctx)
 {
     struct Plan { int threads; int len; int bound; };
     std::vector<Plan> plans;
     if (ctx.quick()) { plans.push_back({2, 3, 2}); plans.push_back({3, 1, 2}); }
-    else { plans.push_back({2, 3, 3}); plans.push_back({3, 2, 3}); }
+    else { plans.push_back({2, 3, 3}); plans.push_back({3, 2, 2}); plans.push_back({3, 1, 3}); }
 
+    const char *only = getenv("C53_ONLY_PLAN");          // measurement aid
+    int planNo = -1;
     for (const auto &plan : plans) {
+        ++planNo;
+        if (only && atoi(only) != planNo) continue;
         const auto scripts = scriptsUpTo(plan.len);
         for (int pi = 0; pi < NPools; ++pi) {
             std::vector<size_t> idx(plan.threads, 0);
@@ -363,7 +375,9 @@ void body(V::Ctx &ctx)
                     V::end_case();
                     return;
                 }
-                VS::explore(sc, st, ctx.deadlineS);
+                const double left = remainingS(ctx);
+                if (left < 0) { V::S().sh->deadlineHit = 1; V::count("scenarios_skipped_at_deadline"); V::end_case(); return; }
+                VS::explore(sc, st, left);
                 V::count("executions", st.executions);
                 V::count("steps", st.steps);
                 V::count("states", st.states);
